@@ -474,6 +474,15 @@ func (nm *NodeMachine) Apply(op NOp) error {
 					}
 				}
 			}
+			if op.CBIn == 4 {
+				// a second output: the block mints more than the configured award (no input, no write)
+				cb := txs[0]
+				cb.TxOutputs = append(cb.TxOutputs, &protos.TxOutput{ToAddr: []byte(prop.Address), Amount: big.NewInt(123456).Bytes()})
+				cb.Txid, _ = txhash.MakeTransactionID(cb)
+				valid = false
+				whyNot = "the award transaction mints more than CalcAward(height)"
+				nm.Stat["peer-coinbase-extra-output"]++
+			}
 			if op.CBIn == 3 {
 				cb := txs[0]
 				key := RawKey(VerifContract, "a")
@@ -490,7 +499,7 @@ func (nm *NodeMachine) Apply(op NOp) error {
 				nm.Stat["peer-coinbase-with-write"]++
 				victim = nil
 			}
-			if victim != nil {
+			if victim != nil && op.CBIn <= 2 {
 				cb := txs[0]
 				cb.TxInputs = []*protos.TxInput{{RefTxid: victim.Txid, RefOffset: victim.Off, FromAddr: []byte(victim.Addr), Amount: victim.Amount.Bytes()}}
 				if op.CBIn == 2 {
